@@ -308,6 +308,14 @@ def run_shard(spec, acc):
                         acc.count('concurrent_builds')
                 except BaseException as e:   # noqa
                     errs.append(short_tb(e))
+        # the writer first (short); if concurrent serialisation already corrupts
+        # bytes, the descriptions read back below would parse garbage for minutes
+        serialise_phase(gg, seed, cfg, idx, acc, rng)
+        if acc.violations:
+            inj.stop()
+            acc.count('injected_yields', inj.injected)
+            acc.extra['progs'] = out
+            return
         ths = [threading.Thread(target=worker, args=(k,), daemon=True)
                for k in range(nt)]
         for t in ths:
@@ -331,7 +339,6 @@ def run_shard(spec, acc):
             inj.stop()
             acc.extra['progs'] = out
             return
-        serialise_phase(gg, seed, cfg, idx, acc, rng)
         inj.stop()
         acc.count('injected_yields', inj.injected)
         for e in errs[:3]:
